@@ -263,6 +263,10 @@ pub fn main(args: &[String]) -> i32 {
         writeln!(out, "{c}").unwrap();
     }
     for sc in scen.iter() {
+        if sc["committed"].as_bool().unwrap_or(false) {
+            crate::c08c::run(sc, &mut out);
+            continue;
+        }
         if sc["acc"].as_bool().unwrap_or(false) {
             crate::c08a::run(sc, &mut out);
             continue;
